@@ -822,11 +822,13 @@ class Image:
             Image: scaled image
 
         """
-        if not isinstance(scalar, float) or isinstance(scalar, int):
+        if not isinstance(scalar, (float, int)):
             raise ValueError
 
+        # NOTE: No in-place multiplication - the product of an integer-valued array
+        # and a float is a float array (same as for plain arrays).
         result_image = self.copy()
-        result_image.img *= scalar
+        result_image.img = result_image.img * scalar
         return result_image
 
     __rmul__ = __mul__
